@@ -255,6 +255,64 @@ def Table.removeNeedsReload (tb : Table) (t b : Nat) : Bool :=
 /-- no key holds an empty set -/
 def Table.NoEmpty (tb : Table) : Prop := ∀ t, tb t ≠ some []
 
+/-! ## construction and configuration of the service and its clients
+
+Reference for the second part of the tie by translation (`TrTie.translated_croncfg_…`, EdzedProps/C07.lean). -/
+
+/-- the zone information of a time of day handed to `add_block` / `remove_block` -/
+inductive Zone where
+  | naive
+  | utc
+  | other
+  deriving Repr, DecidableEq
+
+inductive ZoneRes where
+  | asIs          -- accepted unchanged
+  | stripped      -- accepted, zone removed
+  | typeError     -- not a `datetime.time`
+  | valueError    -- a zone the service cannot use
+  deriving Repr, DecidableEq
+
+/-- `Cron._check_tz`: times are naive; the UTC service (only) also takes times marked as UTC and strips the mark -/
+def checkZone (cronUtc isTime : Bool) (z : Zone) : ZoneRes :=
+  if !isTime then .typeError
+  else match z with
+    | .naive => .asIs
+    | .utc => if cronUtc then .stripped else .valueError
+    | .other => .valueError
+
+/-- the two service blocks -/
+def cronName (utc : Bool) : String := if utc then "_cron_utc" else "_cron_local"
+
+/-- what `_get_cron` needs to know about a block of the circuit -/
+structure SvcBlk where
+  name : String
+  isCron : Bool
+  utc : Bool
+  reserved : Bool
+  deriving Repr, DecidableEq
+
+/-- `_get_cron(utc)` on the list of blocks of the current circuit: the block with the service's name is reused
+    (`none`: the assertion that it is a Cron fails), otherwise ONE reserved Cron block is created -/
+def getCronM (circ : List SvcBlk) (utc : Bool) : Option (SvcBlk × List SvcBlk) :=
+  match circ.find? (fun b => b.name == cronName utc) with
+  | some b => if b.isCron then some (b, circ) else none
+  | none => some (⟨cronName utc, true, utc, true⟩, circ ++ [⟨cronName utc, true, utc, true⟩])
+
+/-- a set of integers in canonical form: sorted, duplicate-free -/
+def insertInt (x : Int) : List Int → List Int
+  | [] => [x]
+  | y :: ys => if x < y then x :: y :: ys else if x = y then y :: ys else y :: insertInt x ys
+
+def intSet (l : List Int) : List Int := l.foldr insertInt []
+
+/-- `_parse3` on a weekday sequence: every number must be 0..7 (else ValueError = `none`); Sunday may be given as
+    0 or 7 and is stored as 7; the result is a set -/
+def normWeekdays (xs : List Int) : Option (List Int) :=
+  if xs.all (fun x => decide (0 ≤ x) && decide (x ≤ 7)) then
+    some (intSet (xs.map fun x => if x = 0 then 7 else x))
+  else none
+
 /-! ## trace acceptance -/
 
 inductive Rec where
